@@ -61,6 +61,7 @@ type Super struct {
 	unitsAb []string
 	start   time.Time
 	runTag  string
+	slow    []string
 	mechCov map[string]float64
 	covNote string
 }
@@ -403,6 +404,13 @@ func (s *Super) runShard(shard, of int) {
 			if (r.T == "budget" || r.T == "mem") && r.Unit == j.dead {
 				hasRec = true
 			}
+			if r.T == "slow" && r.Unit == j.dead {
+				hasRec = true
+				s.mu.Lock()
+				s.ObsMap["calls_abandoned_as_too_slow(not judged)"]++
+				s.slow = append(s.slow, r.Key)
+				s.mu.Unlock()
+			}
 			if r.T == "unit_budget" && r.Unit == j.dead {
 				hasRec = true
 				s.Inconclusive(fmt.Sprintf("unit %s abandoned after %.0f CPU-s / %d bytes resident: the harness's own work ran away there (not a verdict about the library)", r.Unit, r.CPU, r.V))
@@ -714,17 +722,18 @@ func (s *Super) writeEvidence(nViol int, nt int64, knownHit []string) {
 	}
 	sort.Strings(exh)
 	cov := map[string]interface{}{
-		"evaluations":         s.Evals,
-		"distinct_nontrivial": nt,
-		"rule":                o.Prop.Rule,
-		"samples":             samples,
-		"observations":        obs,
-		"exhaustive_sweeps":   exh,
-		"units_completed":     s.unitsOK,
-		"units_abandoned":     s.unitsAb,
-		"known_findings":      knownHit,
-		"inconclusive":        s.incon,
-		"jobs":                o.Jobs,
+		"evaluations":          s.Evals,
+		"distinct_nontrivial":  nt,
+		"rule":                 o.Prop.Rule,
+		"samples":              samples,
+		"observations":         obs,
+		"exhaustive_sweeps":    exh,
+		"units_completed":      s.unitsOK,
+		"units_abandoned":      s.unitsAb,
+		"slow_calls_abandoned": s.slow,
+		"known_findings":       knownHit,
+		"inconclusive":         s.incon,
+		"jobs":                 o.Jobs,
 	}
 	if s.mechCov != nil {
 		cov["mechanism_coverage_percent"] = s.mechCov
@@ -979,6 +988,13 @@ func (s *Super) runUnitsInOwnProcesses(jobs int) {
 				for _, r := range j.recs {
 					if r.T == "budget" || r.T == "mem" {
 						hasRec = true
+					}
+					if r.T == "slow" {
+						hasRec = true
+						s.mu.Lock()
+						s.ObsMap["calls_abandoned_as_too_slow(not judged)"]++
+						s.slow = append(s.slow, r.Key)
+						s.mu.Unlock()
 					}
 					if r.T == "unit_budget" {
 						hasRec = true
